@@ -712,4 +712,105 @@ theorem noFaultB_spec {S : Spec} {U : List File} (h : noFaultB S U = true) : NoF
     have : (S.calls g).contains none = true := by simpa using hc
     simp_all
 
+/-! ## the repaired pre-load succeeds -/
+
+/-- a successful main load: every instance it created carries the definitions of its file -/
+theorem loadMain_stableD_ok (S : Spec) (fuel : Nat) (st0 : St) (f : File) {st' : St} {j : Inst}
+    (h : loadMain S fuel st0 f = (st', .ok, j)) : StableD S (base S st0) st' := by
+  rw [loadMain_unfold] at h
+  split at h
+  · split at h
+    · cases h
+    · cases h; exact StableD.refl _ _
+  · split at h
+    · cases h
+    · have hS1 := loadCalls_stableD S (internal_stableD S fuel) (base S st0).next (S.calls f)
+        (mainStart S (base S st0) f)
+      cases hl : loadCalls (internal S fuel) (base S st0).next (mainStart S (base S st0) f) (S.calls f) with
+      | mk st1 r1 =>
+        rw [hl] at h hS1
+        cases r1 with
+        | fuel => simp only at h; cases h
+        | fail k' => simp only at h; cases h
+        | ok =>
+          simp only at h
+          obtain ⟨_, e2, e3, e4⟩ := finishMain_ok_same S _ f st1 st' j h
+          exact ((mainStart_stableD S _ f).trans hS1).trans (StableD.of_eq S e3 e2 e4)
+
+/-- what a later load finds in a file does not change by a successful load of the same files in between -/
+theorem defsNow_after_ok (S : Spec) (fuel : Nat) (st : St) (f : File) {st1 : St} {j : Inst} (hg : S.glob = true)
+    (hwf : WF st) (hl : loadMain S fuel st f = (st1, .ok, j)) (h : File) : defsNow S st1 h = defsNow S st h := by
+  have hb := base_of_glob S st hg
+  have hok := loadMain_ok S fuel st f (hwf.base S) hl
+  have hD := loadMain_stableD_ok S fuel st f hl
+  rw [hb] at hok hD
+  obtain ⟨N, hN, hge⟩ := hok.invW.split
+  unfold defsNow
+  by_cases hk : h ∈ st.all.keys
+  · obtain ⟨e, he, hek⟩ := List.mem_map.1 hk
+    have he' : (h, e.2) ∈ st.all := by rw [← hek]; exact he
+    have he1 : (h, e.2) ∈ st1.all := by rw [hN]; exact List.mem_append_left _ he'
+    rw [Dict.get?_of_mem _ _ _ hwf.nodup he', Dict.get?_of_mem _ _ _ hok.wf.nodup he1]
+    exact hD.stable.defsOf e.2 (hwf.lt (h, e.2) he')
+  · rw [Dict.get?_eq_none _ _ hk]
+    by_cases hk1 : h ∈ st1.all.keys
+    · obtain ⟨e, he, hek⟩ := List.mem_map.1 hk1
+      have he' : (h, e.2) ∈ st1.all := by rw [← hek]; exact he
+      rw [Dict.get?_of_mem _ _ _ hok.wf.nodup he']
+      have hx : st.next ≤ e.2 := by
+        rw [hN] at he
+        rcases List.mem_append.1 he with h1 | h1
+        · exact absurd (by rw [← hek]; exact Dict.mem_keys_of_mem h1) hk
+        · exact hge e h1
+      simp only
+      rw [hD.defsNew e.2 hx (hok.wf.lt (h, e.2) he'), hok.wf.file (h, e.2) he']
+    · rw [Dict.get?_eq_none _ _ hk1]
+
+theorem visible_after_ok (S : Spec) (fuel : Nat) (st : St) (f : File) {st1 : St} {j : Inst} (hg : S.glob = true)
+    (hwf : WF st) (hl : loadMain S fuel st f = (st1, .ok, j)) (g : File) (n : Name) :
+    visible S st1 g n = visible S st g n := by
+  unfold visible
+  simp only [defsNow_after_ok S fuel st f hg hwf hl]
+
+/-- **a pre-load of repaired files succeeds**: no fault in an import-closed set `U` containing every file
+the patterns denote, every pattern denotes a file, fuel for `U`, and every reference of the files of `U`
+has a visible definition -/
+theorem preload_succeeds (S : Spec) (hg : S.glob = true) (U : List File)
+    (hU : ∀ h ∈ U, ∀ x, some x ∈ S.calls h → x ∈ U) (hS : NoFaultOn S U) (fuel : Nat) (hn : U.length ≤ fuel) :
+    ∀ (calls : List (Option File)) (st : St), WF st → none ∉ calls → (∀ c, some c ∈ calls → c ∈ U) →
+      (∀ g ∈ U, ∀ n ∈ S.refs g, visible S st g n = true) → (Repo.preload S fuel st calls).2 = .ok := by
+  intro calls
+  induction calls with
+  | nil => intro st _ _ _ _; rfl
+  | cons c cs ih =>
+    intro st hwf hnone hc hv
+    cases c with
+    | none => exact absurd List.mem_cons_self hnone
+    | some g =>
+      have hnone' : none ∉ cs := fun h => hnone (List.mem_cons_of_mem _ h)
+      have hcs : ∀ c, some c ∈ cs → c ∈ U := fun c h => hc c (List.mem_cons_of_mem _ h)
+      cases hhas : st.all.has g with
+      | true =>
+        rw [preload_cons_cached S fuel st g cs hhas]
+        exact ih st hwf hnone' hcs hv
+      | false =>
+        have hgU : g ∈ U := hc g List.mem_cons_self
+        have hb := base_of_glob S st hg
+        have hok : (Entry.run S fuel st (.file g)).2.1 = .ok :=
+          Entry.run_succeedsU S U hU hS fuel st (.file g) hgU (hwf.base S) trivial hn
+            (fun g' hr n hn' => by
+              rw [hb]; exact hv g' (Reach.mem_closed hU hgU hr) n hn')
+        cases hl : loadMain S fuel st g with
+        | mk st1 rj =>
+          obtain ⟨r1, j1⟩ := rj
+          have : r1 = .ok := by
+            have h' : (loadMain S fuel st g).2.1 = .ok := hok
+            rw [hl] at h'; exact h'
+          subst this
+          rw [preload_cons_ok S fuel st st1 g j1 cs hhas hl]
+          refine ih st1 (loadMain_ok S fuel st g (hwf.base S) hl).wf hnone' hcs ?_
+          intro g' hg' n hn'
+          rw [visible_after_ok S fuel st g hg hwf hl]
+          exact hv g' hg' n hn'
+
 end Repo
